@@ -371,6 +371,15 @@ def plane_of_class(rng, V, F, cls, s=1.0):
         if not any(n):
             return None
         return _gcd_reduce(n), p3
+    if cls in ("outside+", "outside-"):
+        # the whole mesh strictly on the positive / negative side (a quarter of |n| beyond the extreme
+        # vertex): nothing is cut, everything / nothing is kept - also of a face subset, also when
+        # such a plane comes first among several (from seeded change C11-r4-1)
+        n = _rand_n(rng)
+        d = [sum(int(n[i]) * int(v[i]) for i in range(3)) for v in V[used]]
+        k = int(np.argmin(d)) if cls == "outside+" else int(np.argmax(d))
+        t = Fr(-1, 4) if cls == "outside+" else Fr(1, 4)
+        return n, tuple(Fr(int(V[used][k][i])) + n[i] * t for i in range(3))
     if cls == "edge_mid":
         # through the midpoints of two edges of one face and a random direction: pattern --+ / -++
         f = F[int(rng.integers(nf))]
@@ -385,7 +394,7 @@ def plane_of_class(rng, V, F, cls, s=1.0):
 
 
 SPECIAL = ("vertex1", "vertex2", "vertex3", "edge", "face+", "face-", "vertex_cross", "edge_mid", "near_vertex", "in_band",
-           "in_band_small")
+           "in_band_small", "outside+", "outside-")
 
 
 def plane_record(n, o, cls):
@@ -1268,6 +1277,18 @@ def _call_slice(ctx, m, planes, route, face_index=None, cap=False, engine=None):
     return np.asarray(r.vertices), np.asarray(r.faces)
 
 
+_SEMANTICS = {}
+
+
+def rest_area_of(ctx, sub):
+    key = ("rest_area", tuple(sub))
+    if key not in ctx.__dict__:
+        chosen = set(sub)
+        rest = [i for i in range(len(ctx.F)) if i not in chosen]
+        ctx.__dict__[key] = float(C.SliceOracle(ctx.V, ctx.F, [], faces=rest).total_area()) if rest else 0.0
+    return ctx.__dict__[key]
+
+
 def op_slice(run, ctx):
     """Uncapped slice by one plane, both sides; opts: route, face_index."""
     m = ctx.mesh()
@@ -1309,6 +1330,17 @@ def op_slice(run, ctx):
                     extra_total += rest_area
             if sem:
                 run.state("face_index_semantics", sem)
+                # one function has one meaning of `face_index`: once a call was explained by "subset only"
+                # and NOT by "rest kept" (the rest has area), a call that only "rest kept" explains is the
+                # other meaning - the subset was not applied (from seeded change C11-r4-1)
+                if sem == "subset_only" and rest_area_of(ctx, sub) > 100 * TOLA * scale and not (
+                        lo + rest_area_of(ctx, sub) - 10 * TOLA * scale <= area <= hi + rest_area_of(ctx, sub) + 10 * TOLA * scale):
+                    _SEMANTICS.setdefault(route, "subset_only")
+                elif sem == "subset_sliced_rest_kept" and _SEMANTICS.get(route) == "subset_only":
+                    res[label][0]["ok"] = False
+                    _viol(run, ctx, route, "face_subset_not_applied",
+                          "the slice holds the faces outside face_index although other calls of this function return the subset only",
+                          got=area, lo=lo, hi=hi, side=label, _key={"subset": "yes"})
         if not in_b:
             res[label][0]["ok"] = False
             _viol(run, ctx, route, "area", "area of the slice differs from the exact area on the positive side",
@@ -1791,13 +1823,21 @@ def workload(run):
             for roll in range(3):
                 route = ("slice_plane", "slice_faces_plane", "slice_faces_plane:cached_dots")[(pi + roll) % 3]
                 execute(run, make_case("slice", tag, V, F, [rec], unit=unit, roll=roll, route=route))
-            if len(F) > 2 and pi % 2 == 0:
+            if len(F) > 2 and (pi % 2 == 0 or cls.startswith("outside")):
                 k = int(rng.integers(1, len(F)))
                 sub = sorted(int(i) for i in rng.choice(len(F), size=k, replace=False))
                 route = ("slice_plane", "slice_faces_plane")[pi % 4 // 2]
                 how = {"subset_as": "mask"} if pi % 8 in (2, 4) else {}
                 execute(run, make_case("slice", tag, V, F, [rec], unit=unit, route=route, face_index=sub, **how))
             # several planes at once
+            if cls.startswith("outside") and len(planes) > 2:
+                # a plane that cuts nothing first, then planes that do
+                recs = [rec] + [plane_record(planes[j][1], planes[j][2], planes[j][0]) for j in (0, 1)][: 1 + pi % 2]
+                execute(run, make_case("slice_multi", tag, V, F, recs, unit=unit))
+                if len(F) > 2:
+                    k = int(rng.integers(1, len(F)))
+                    sub = sorted(int(i) for i in rng.choice(len(F), size=k, replace=False))
+                    execute(run, make_case("slice_multi", tag, V, F, recs, unit=unit, face_index=sub))
             if pi % 3 == 0 and pi + 2 < len(planes) and not {cls, planes[pi + 1][0], planes[pi + 2][0]} & set(BANDS):
                 recs = [rec] + [plane_record(planes[pi + j][1], planes[pi + j][2], planes[pi + j][0]) for j in (1, 2)][: 1 + pi % 2]
                 execute(run, make_case("slice_multi", tag, V, F, recs, unit=unit))
